@@ -41,17 +41,18 @@ Hypothesis J_attach : forall s g parent target sib l1 l2 (t2 : T) g2, TI s g -> 
 
 Lemma attach_spec2 : forall fuel parent target sib n s g l1 l2,
   TI s g -> J s g -> kids g parent = l1 ++ target :: l2 -> sib = hd InvalidIndex l2 -> tgt_ok s g target ->
-  wp True (attachSiblings_go fuel parent target sib n false) s (fun r s' =>
-    exists g' l2', TI s' g' /\ J s' g' /\ reloc g g' (desc g parent) /\ kids g' parent = l1 ++ target :: l2').
+  wp (fuel <= length l2)%nat (attachSiblings_go fuel parent target sib n false) s (fun r s' =>
+    exists g' l2', TI s' g' /\ J s' g' /\ reloc g g' (desc g parent) /\ kids g' parent = l1 ++ target :: l2' /\
+      (length l2' <= length l2)%nat /\ (forall q, q <> parent -> q <> target -> kids g' q = kids g q)).
 Proof.
   induction fuel as [|fuel IH]; intros parent target sib n s g l1 l2 H HJ Hk Hs Htg; cbn [attachSiblings_go].
-  { apply wp_outOfFuel. exact I. }
+  { apply wp_outOfFuel. lia. }
   pose proof (ti_R _ _ H) as HR.
   destruct (n =? 0).
-  { apply wp_ret. exists g, l2. split; auto. split; auto. split; [apply reloc_refl|exact Hk]. }
+  { apply wp_ret. exists g, l2. split; auto. split; auto. split; [apply reloc_refl|]. split; [exact Hk|]. split; [lia|auto]. }
   rewrite andb_false_r. apply wp_bind. apply wp_ret.
   destruct (N.eqb_spec sib InvalidIndex) as [Es|Es].
-  { apply wp_ret. exists g, l2. split; auto. split; auto. split; [apply reloc_refl|exact Hk]. }
+  { apply wp_ret. exists g, l2. split; auto. split; auto. split; [apply reloc_refl|]. split; [exact Hk|]. split; [lia|auto]. }
   destruct (hd_nonempty _ _ _ (eq_sym Hs) Es) as (l2' & El2). subst l2.
   assert (Hin_t : In target (kids g parent)) by (rewrite Hk; apply in_or_app; right; left; reflexivity).
   assert (Hin_s : In sib (kids g parent)) by (rewrite Hk; apply in_or_app; right; right; left; reflexivity).
@@ -72,7 +73,7 @@ Proof.
   assert (Hndst : ~ desc g sib target).
   { intros Hd. pose proof (sibling_not_desc _ _ HR parent sib target Hin_s Hin_t Hd) as E. subst target.
     apply Hnotin. apply in_or_app. right. left. reflexivity. }
-  apply (move_gen True parent sib target _ s g); [exact H|exact Hin_s|exact Hlt|exact Hndst|].
+  apply (move_gen _ parent sib target _ s g); [exact H|exact Hin_s|exact Hlt|exact Hndst|].
   intros t2 g2 H2 S2 R2 _ _ Hpf2 Hk2.
   assert (HJ2 : J (with_tree s t2) g2) by (eapply (J_attach s g parent target sib l1 l2'); eauto).
   assert (Hne_tp : target <> parent) by (eapply (R_child_neq_parent _ _ HR); eauto).
@@ -91,19 +92,23 @@ Proof.
   assert (HSt : desc g parent target) by (apply (desc_step g parent parent target HSp Hin_t)).
   assert (HSs : desc g parent sib) by (apply (desc_step g parent parent sib HSp Hin_s)).
   assert (Hrl : reloc g g2 (desc g parent)) by (apply (reloc_of_move g g2 parent sib target _ S2 HSp HSt HSs Hin_s Hk2)).
-  eapply wp_weaken; [apply (IH parent target (hd InvalidIndex l2') (n - 1) _ g2 l1 l2' H2 HJ2 Hkp2 eq_refl Htg2)|auto|].
-  intros r s' (g' & l2'' & F1 & F0 & F2 & F3). exists g', l2''. split; auto. split; auto. split; [|exact F3].
-  eapply reloc_chain; [apply closed_desc|exact HSp|exact Hrl|exact F2].
+  eapply wp_weaken; [apply (IH parent target (hd InvalidIndex l2') (n - 1) _ g2 l1 l2' H2 HJ2 Hkp2 eq_refl Htg2)|cbn [length]; lia|].
+  intros r s' (g' & l2'' & F1 & F0 & F2 & F3 & F4 & F5). exists g', l2''. split; auto. split; auto.
+  split; [eapply reloc_chain; [apply closed_desc|exact HSp|exact Hrl|exact F2]|]. split; [exact F3|]. split; [cbn [length]; lia|].
+  intros q Hq1 Hq2. rewrite (F5 q Hq1 Hq2), Hk2. apply N.eqb_neq in Hq1. apply N.eqb_neq in Hq2. rewrite Hq1, Hq2. apply app_nil_r.
 Qed.
 
-Definition CN_spec2 (fuel : nat) : Prop := forall x s g, TI s g -> J s g -> glive g x ->
-  wp True (connectNamedObjArgs fuel x) s (fun r s' => exists g', TI s' g' /\ J s' g' /\ reloc g g' (desc g x)).
+Definition cpost (g : ghost) (x : N) (r : pres) (s' : pstate) : Prop := exists g', TI s' g' /\ J s' g' /\ reloc g g' (desc g x).
 
-Definition loop_spec2 (fuel : nat) : Prop := forall obj argIndex s g, TI s g -> J s g -> glive g obj ->
-  (argIndex = InvalidIndex \/ In argIndex (kids g obj)) ->
-  wp True (connectNamed_loop fuel obj argIndex) s (fun r s' => exists g', TI s' g' /\ J s' g' /\ reloc g g' (desc g obj)).
+(** the walk from [x] with the measure: it runs out of fuel only if the fuel is below twice the size of the subtree *)
+Definition CN_specF (fuel : nat) : Prop := forall x s g, TI s g -> J s g -> glive g x ->
+  wp (PO g x fuel) (connectNamedObjArgs fuel x) s (cpost g x).
 
-Lemma step_CN2 fuel : loop_spec2 fuel -> CN_spec2 (S fuel).
+Definition loop_specF (fuel : nat) : Prop := forall obj argIndex s g l r, TI s g -> J s g -> glive g obj ->
+  kids g obj = l ++ r -> argIndex = last l InvalidIndex ->
+  wp (PL g l r fuel) (connectNamed_loop fuel obj argIndex) s (cpost g obj).
+
+Lemma step_CNF fuel : loop_specF fuel -> CN_specF (S fuel).
 Proof.
   intros IHl x s g H HJ Hl. cbn [connectNamedObjArgs].
   pose proof (ti_R _ _ H) as HR.
@@ -111,43 +116,62 @@ Proof.
   destruct (TI_live_get _ _ _ H Hl) as (o & Ho & Hlo).
   apply wp_bind. apply wp_rdf. exists o. split; [exact Ho|].
   destruct (R_kids _ _ HR _ _ Ho Hlo) as (_ & Hlast & _). rewrite Hlast.
-  apply IHl; auto.
-  destruct (kids g x) as [|c l]; [left; reflexivity|right; apply last_In].
+  eapply wp_weaken; [apply (IHl x _ s g (kids g x) [] H HJ Hl (eq_sym (app_nil_r _)) eq_refl)| |auto].
+  intros HP n Hn. inversion Hn as [x' n' Hs]; subst. specialize (HP n' Hs). cbn [length] in HP. lia.
 Qed.
 
-Lemma step_loop2 fuel : CN_spec2 fuel -> loop_spec2 fuel -> loop_spec2 (S fuel).
+Lemma last_split (l : list N) d : l <> [] -> exists l', l = l' ++ [last l d].
+Proof. intros H. exists (removelast l). apply app_removelast_last. exact H. Qed.
+
+Lemma step_loopF fuel : CN_specF fuel -> loop_specF fuel -> loop_specF (S fuel).
 Proof.
-  intros IHc IHl obj argIndex s g H HJ Hl Harg. cbn [connectNamed_loop].
+  intros IHc IHl obj argIndex s g l r H HJ Hl Hkl Harg. cbn [connectNamed_loop].
   destruct (N.eqb_spec argIndex InvalidIndex) as [Ei|Ei].
   { apply wp_ret. exists g. split; auto. split; auto. apply reloc_refl. }
-  destruct Harg as [?|Hin]; [contradiction|].
+  assert (Hne : l <> []) by (intros ->; cbn in Harg; contradiction).
+  destruct (last_split l InvalidIndex Hne) as (l' & El). rewrite <- Harg in El. subst l. rewrite <- app_assoc in Hkl. cbn [app] in Hkl.
+  assert (Hin : In argIndex (kids g obj)) by (rewrite Hkl; apply in_or_app; right; left; reflexivity).
   pose proof (ti_R _ _ H) as HR. pose proof (R_gwf _ _ HR) as Hwf. destruct (Hwf _ _ Hin) as (_ & Hla).
   apply wp_bind. apply wp_objectAt'; [apply (TI_ObjectAt _ _ _ H Hla)|].
   destruct (TI_live_get _ _ _ H Hla) as (ao0 & Hao0 & Hlao0).
   apply wp_bind. apply wp_rdf. exists ao0. split; [exact Hao0|]. rewrite (R_index _ _ HR _ _ Hao0).
-  apply wp_bind. eapply wp_weaken; [apply (IHc argIndex s g H HJ Hla)|auto|].
+  (* what the measure of the whole gives for the parts *)
+  assert (Hsplit : forall m, szl g (l' ++ [argIndex]) m -> exists a n, szl g l' a /\ sz g argIndex n /\ m = (a + n)%nat).
+  { intros m Hm. destruct (szl_app g l' [argIndex] m Hm) as (a & b & A & B & E). exists a, b. split; [exact A|]. split; [apply szl_one; exact B|exact E]. }
+  apply wp_bind. eapply wp_weaken; [apply (IHc argIndex s g H HJ Hla)| |].
+  { intros HP m Hm. destruct (Hsplit m Hm) as (a & n & A & B & ->). specialize (HP n B). lia. }
   intros res s1 (g1 & H1 & HJ1 & Rl1).
   set (S := desc g obj).
   assert (HSo : S obj) by constructor.
   assert (HSa : S argIndex) by (apply (desc_step g obj obj argIndex HSo Hin)).
   assert (Rl1' : reloc g g1 S).
   { eapply reloc_lift; [|exact Rl1]. intros y Hy. eapply desc_in_closed; [apply closed_desc|exact HSa|exact Hy]. }
-  assert (Hk1 : kids g1 obj = kids g obj) by (apply (rl_out _ _ _ Rl1); apply (child_not_desc _ _ HR); exact Hin).
-  assert (Hin1 : In argIndex (kids g1 obj)) by (rewrite Hk1; exact Hin).
+  assert (Hk1 : kids g1 obj = l' ++ argIndex :: r).
+  { rewrite <- Hkl. apply (rl_out _ _ _ Rl1). apply (child_not_desc _ _ HR). exact Hin. }
   assert (Hl1 : glive g1 obj) by (apply (reloc_glive _ _ _ obj Rl1); exact Hl).
   assert (Hla1 : glive g1 argIndex) by (apply (reloc_glive _ _ _ argIndex Rl1); exact Hla).
+  (* the subtrees of the children before [argIndex] are untouched by the walk below [argIndex] *)
+  assert (Hin' : forall c, In c l' -> In c (kids g obj)) by (intros c Hc; rewrite Hkl; apply in_or_app; left; exact Hc).
+  assert (Hnd : NoDup (l' ++ argIndex :: r)).
+  { destruct (TI_live_get _ _ _ H Hl) as (oo & Hoo & Hloo). destruct (R_kids _ _ HR _ _ Hoo Hloo) as (_ & _ & _ & Hn). rewrite Hkl in Hn. exact Hn. }
+  assert (Hca : forall c, In c l' -> c <> argIndex).
+  { intros c Hc ->. apply NoDup_remove_2 in Hnd. apply Hnd. apply in_or_app. left. exact Hc. }
+  assert (Hsame1 : forall c y, In c l' -> desc g c y -> kids g1 y = kids g y).
+  { intros c y Hc Hd. apply (rl_out _ _ _ Rl1). intros Hd'. apply (Hca c Hc).
+    apply (siblings_disjoint2 (p_tree s) g obj c argIndex y HR (Hin' c Hc) Hin Hd Hd'). }
+  assert (Htr1 : forall a, szl g l' a -> szl g1 l' a) by (intros a Ha; apply (proj2 (sz_same g g1) l' a Ha Hsame1)).
   destruct (negb (pres_eqb res ROk)).
   { apply wp_ret. exists g1. split; auto. }
-  assert (Hcont : forall s2 g2, TI s2 g2 -> J s2 g2 -> reloc g g2 S -> In argIndex (kids g2 obj) ->
-     wp True (mlet prev <~ rdf argIndex o_prev ;; connectNamed_loop fuel obj prev) s2
-        (fun r s' => exists g', TI s' g' /\ J s' g' /\ reloc g g' S)).
-  { intros s2 g2 H2 HJ2 Rl2 Hin2. pose proof (ti_R _ _ H2) as HR2.
-    destruct ((R_gwf _ _ HR2) _ _ Hin2) as (Hlo2 & Hla2).
-    destruct (TI_live_get _ _ _ H2 Hla2) as (ao2 & Hao2 & Hlao2).
-    apply wp_bind. apply wp_rdf. exists ao2. split; [exact Hao2|].
-    eapply wp_weaken; [apply (IHl obj (o_prev ao2) s2 g2 H2 HJ2 Hlo2)|auto|].
-    - apply (prev_sibling _ _ HR2 obj argIndex ao2 Hin2 Hao2).
-    - intros r s' (g' & F1 & F0 & F2). exists g'. split; auto. split; auto.
+  assert (Hcont : forall s2 g2 r2, TI s2 g2 -> J s2 g2 -> reloc g g2 S -> kids g2 obj = l' ++ argIndex :: r2 ->
+     (length r2 <= length r)%nat -> (forall a, szl g l' a -> szl g2 l' a) ->
+     wp (PL g (l' ++ [argIndex]) r (Datatypes.S fuel)) (mlet prev <~ rdf argIndex o_prev ;; connectNamed_loop fuel obj prev) s2 (cpost g obj)).
+  { intros s2 g2 r2 H2 HJ2 Rl2 Hk2 Hlen2 Htr2. pose proof (ti_R _ _ H2) as HR2.
+    assert (Hlo2 : glive g2 obj) by (apply (reloc_glive _ _ _ obj Rl2); exact Hl).
+    destruct (sibling_links _ _ HR2 obj l' argIndex r2 Hlo2 Hk2) as (ao2 & Hao2 & _ & _ & Hprev & _).
+    apply wp_bind. apply wp_rdf. exists ao2. split; [exact Hao2|]. rewrite Hprev.
+    eapply wp_weaken; [apply (IHl obj (last l' InvalidIndex) s2 g2 l' (argIndex :: r2) H2 HJ2 Hlo2 Hk2 eq_refl)| |].
+    - intros HP m Hm. destruct (Hsplit m Hm) as (a & n & A & B & ->). specialize (HP a (Htr2 a A)). pose proof (sz_pos _ _ _ B). cbn [length] in HP. lia.
+    - intros r0 s' (g' & F1 & F0 & F2). exists g'. split; auto. split; auto.
       eapply reloc_chain; [apply closed_desc|exact HSo|exact Rl2|exact F2]. }
   pose proof (ti_R _ _ H1) as HR1.
   destruct (TI_live_get _ _ _ H1 Hla1) as (ao & Hao & Hlao).
@@ -158,7 +182,7 @@ Proof.
   apply wp_bind, wp_get.
   destruct (negb (hasFlag flags aml_pOpFlagNamed) || negb (o_tableHandle ao =? p_handle s1) || (o_first ao =? InvalidIndex) ||
             (o_opcode ao =? aml_pOpIntScopeBlock)) eqn:Ec.
-  { apply (Hcont s1 g1 H1 HJ1 Rl1' Hin1). }
+  { apply (Hcont s1 g1 r H1 HJ1 Rl1' Hk1 (Nat.le_refl _) Htr1). }
   apply orb_false_elim in Ec. destruct Ec as (Ec & Esb). apply orb_false_elim in Ec. destruct Ec as (Ec & Efirst).
   apply orb_false_elim in Ec. destruct Ec as (Enamed & Ehandle).
   apply negb_false_iff in Enamed. apply negb_false_iff in Ehandle. apply N.eqb_eq in Ehandle. apply N.eqb_neq in Esb.
@@ -193,30 +217,51 @@ Proof.
   assert (Hlive2 : live (p_tree s2) argIndex) by (apply (R_live_glive _ _ HR2); exact Hla1).
   apply wp_bind. eapply wp_tq; [apply (NumArgs_spec _ _ HR2 argIndex Hlive2)|].
   destruct ((N.of_nat (length (kids g1 argIndex)) =? argCount argFlags) || (argCount argFlags <=? termArgIndex argFlags)).
-  { apply (Hcont s2 g1 H2 HJ2 Rl1' Hin1). }
+  { apply (Hcont s2 g1 r H2 HJ2 Rl1' Hk1 (Nat.le_refl _) Htr1). }
   (* attachSiblingsAsArgs *)
   apply wp_bind. unfold attachSiblingsAsArgs.
-  destruct (in_split _ _ Hin1) as (l1 & l2 & Ekids).
   destruct (TI_live_get _ _ _ H2 Hl1) as (oo & Hoo & Hloo).
-  destruct (R_kids _ _ HR2 _ _ Hoo Hloo) as (_ & _ & Hch & _). rewrite Ekids in Hch.
+  destruct (R_kids _ _ HR2 _ _ Hoo Hloo) as (_ & _ & Hch & _). rewrite Hk1 in Hch.
   destruct (chain_mid _ _ _ _ _ Hch) as (ao2 & Hao2 & _ & _ & _ & Hnext).
   apply wp_bind. apply wp_rdf. exists ao2. split; [exact Hao2|]. rewrite Hnext.
   assert (Htg2 : tgt_ok s2 g1 argIndex).
   { exists (set_name (b0, b1, b2, b3) ao), op, flags, argFlags. unfold s2. cbn [p_tree with_tree p_handle].
     rewrite get_tset, N.eqb_refl, Hao. cbn [option_map]. split; [reflexivity|]. cbn [set_name o_infoIndex o_tableHandle o_opcode].
     repeat (split; [assumption|]). rewrite Ek. discriminate. }
-  eapply wp_weaken; [apply (attach_spec2 fuel obj argIndex (hd InvalidIndex l2) _ s2 g1 l1 l2 H2 HJ2 Ekids eq_refl Htg2)|auto|].
-  intros r s3 (g3 & l2' & H3 & HJ3 & Rl3 & Ek3).
-  assert (Rl3' : reloc g g3 S) by (eapply reloc_chain; [apply closed_desc|exact HSo|exact Rl1'|exact Rl3]).
-  destruct (negb (pres_eqb r ROk)).
+  eapply wp_weaken; [apply (attach_spec2 fuel obj argIndex (hd InvalidIndex r) _ s2 g1 l' r H2 HJ2 Hk1 eq_refl Htg2)| |].
+  { intros HP m Hm. destruct (Hsplit m Hm) as (a & n & A & B & ->). pose proof (sz_pos _ _ _ B). lia. }
+  intros r0 s3 (g3 & r3 & H3 & HJ3 & Rl3 & Ek3 & Hlen3 & Hoth3).
+  assert (Rl3' : reloc g g3 S).
+  { eapply reloc_chain; [apply closed_desc|exact HSo|exact Rl1'|]. eapply reloc_lift; [|exact Rl3].
+    intros y Hy. exact Hy. }
+  destruct (negb (pres_eqb r0 ROk)).
   { apply wp_ret. exists g3. split; auto. }
-  apply (Hcont s3 g3 H3 HJ3 Rl3'). rewrite Ek3. apply in_or_app. right. left. reflexivity.
+  apply (Hcont s3 g3 r3 H3 HJ3 Rl3' Ek3 Hlen3).
+  intros a Ha. apply (proj2 (sz_same g1 g3) l' a (Htr1 a Ha)).
+  intros c y Hc Hd. apply Hoth3.
+  - (* y is below a child of obj: it is not obj *)
+    intros ->. apply (child_not_desc _ _ HR1 obj c); [rewrite Hk1; apply in_or_app; left; exact Hc|exact Hd].
+  - intros ->. apply (Hca c Hc).
+    apply (siblings_disjoint2 (p_tree s1) g1 obj c argIndex argIndex HR1); [rewrite Hk1; apply in_or_app; left; exact Hc|
+      rewrite Hk1; apply in_or_app; right; left; reflexivity|exact Hd|apply desc_refl].
 Qed.
 
-Lemma conn_all2 : forall fuel, CN_spec2 fuel /\ loop_spec2 fuel.
+Lemma conn_allF : forall fuel, CN_specF fuel /\ loop_specF fuel.
 Proof.
   induction fuel as [|fuel (IHc & IHl)].
-  - split; intro; intros; cbn [connectNamedObjArgs connectNamed_loop]; apply wp_outOfFuel; exact I.
-  - split; [apply step_CN2; exact IHl|apply step_loop2; assumption].
+  - split; intro; intros; cbn [connectNamedObjArgs connectNamed_loop]; apply wp_outOfFuel.
+    + intros n Hn. pose proof (sz_pos _ _ _ Hn). lia.
+    + intros m Hm. lia.
+  - split; [apply step_CNF; exact IHl|apply step_loopF; assumption].
+Qed.
+
+(** the walk without the measure (fuel exhaustion allowed) *)
+Definition CN_spec2 (fuel : nat) : Prop := forall x s g, TI s g -> J s g -> glive g x ->
+  wp True (connectNamedObjArgs fuel x) s (fun r s' => exists g', TI s' g' /\ J s' g' /\ reloc g g' (desc g x)).
+
+Lemma conn_all2 : forall fuel, CN_spec2 fuel /\ True.
+Proof.
+  intros fuel. split; [|exact I]. intros x s g H HJ Hl.
+  eapply wp_weaken; [apply (proj1 (conn_allF fuel) x s g H HJ Hl)|auto|]. intros r s' Hp. exact Hp.
 Qed.
 End Conn2.
